@@ -54,7 +54,7 @@ PLANS = {
             hist("ledger", 16, 300, 4000, mode="miri", reports_to=MEM, extra=["--bare", "1"]),
             enum_iter("native", 4, 5, False, tiers=("quick",)), enum_iter("native", 8, 8, False, tiers=("thorough",))],
     "C07": [job("interleave", "native", 4, [], budget={"quick": 300000, "thorough": 5000000}), job("interleave", "asan", 2, [], budget={"quick": 60000, "thorough": 1500000}, reports_to=MEM), hist("realloc", 10, 480000, 6000000), hist("map", 2, 480000, 3000000),
-            hist("realloc", 10, 100000, 2000000, mode="asan", reports_to=MEM), hist("big", 2, 20000, 300000, mode="asan", reports_to=MEM), hist("big", 2, 50000, 600000),
+            hist("realloc", 10, 100000, 2000000, mode="asan", reports_to=MEM), hist("big", 2, 20000, 120000, mode="asan", reports_to=MEM), hist("big", 2, 50000, 600000),
             hist("realloc", 16, 300, 4000, mode="miri", reports_to=MEM, extra=["--bare", "1"])],
     "C12": [enum_iter("native", 12, 7, False, random=400, tiers=("quick",)), enum_iter("native", 16, 10, False, random=5000, tiers=("thorough",)),
             enum_iter("asan", 4, 5, False, random=100, tiers=("quick",)), enum_iter("asan", 12, 8, False, random=2000, tiers=("thorough",)),
